@@ -1,5 +1,5 @@
 # replay of a bounded stand-in violation (C14): re-run native/c14_io.py
 import sys
-print("blackbird tdm-single-band: saving raised KeyError: 'O'")
+print('blackbird compiled program: backend option cutoff_dim=6 loaded as {}')
 print('REPLAY-VIOLATION')
 sys.exit(1)
